@@ -316,40 +316,55 @@ class ModelCompiler:
     @staticmethod
     def extract(model, focus):
         extracted_model = Model()
+        to_scan = []
+
+        def copy_cell(address):
+            # A reference to a cell the model does not hold is a blank.
+            if (address in model.cells
+                    and address not in extracted_model.cells):
+                extracted_model.cells[address] = copy.deepcopy(
+                    model.cells[address])
+                to_scan.append(address)
+
+        def copy_defined_name(name):
+            extracted_model.defined_names[name] = defn = copy.deepcopy(
+                model.defined_names[name])
+
+            if isinstance(defn, xltypes.XLCell):
+                copy_cell(defn.address)
+
+            elif isinstance(defn, xltypes.XLRange):
+                for row in defn.cells:
+                    for column in row:
+                        copy_cell(column)
 
         for address in focus:
             if isinstance(address, str) and address in model.cells:
-                extracted_model.cells[address] = copy.deepcopy(
-                    model.cells[address])
+                copy_cell(address)
 
             elif isinstance(address, str) and address in model.defined_names:
+                copy_defined_name(address)
 
-                extracted_model.defined_names[address] = defn = copy.deepcopy(
-                    model.defined_names[address])
+        # Everything the copied formulas depend on, directly or through
+        # other formulas, ranges and defined names, comes along.
+        while to_scan:
+            cell = extracted_model.cells[to_scan.pop()]
+            if cell.formula is None:
+                continue
 
-                if isinstance(defn, xltypes.XLCell):
-                    extracted_model.cells[defn.address] = copy.deepcopy(
-                        model.cells[defn.address])
-
-                elif isinstance(defn, xltypes.XLRange):
-                    for row in defn.cells:
+            for term in cell.formula.terms:
+                if term in model.ranges:
+                    extracted_model.ranges[term] = copy.deepcopy(
+                        model.ranges[term])
+                    for row in model.ranges[term].cells:
                         for column in row:
-                            extracted_model.cells[column] = copy.deepcopy(
-                                model.cells[column])
+                            copy_cell(column)
 
-        terms_to_copy = []
-        for addr, cell in extracted_model.cells.items():
-            if cell.formula is not None:
-                for term in cell.formula.terms:
-                    if (term in extracted_model.cells
-                            and cell.formula != model.cells[addr].formula):
-                        cell.formula = copy.deepcopy(model.cells[addr].formula)
+                elif term.rpartition('!')[2] in model.defined_names:
+                    copy_defined_name(term.rpartition('!')[2])
 
-                    elif term not in extracted_model.cells:
-                        terms_to_copy.append(term)
-
-        for term in terms_to_copy:
-            extracted_model.cells[term] = copy.deepcopy(model.cells[term])
+                else:
+                    copy_cell(term)
 
         extracted_model.build_code()
 
